@@ -88,6 +88,16 @@ def stepLine (st : St) (line : String) : St × String :=
   | ["get", n] => doOp st (do pure (.get (← unhex n)))
   | ["del", n] => doOp st (do pure (.delete (← unhex n)))
   | ["list"] => doOp st (some .list)
+  | ["race", n, k1, k2] =>
+    -- two concurrent Puts of one name into the FS keystore: the exclusive create is atomic, so the
+    -- outcome (as a set) is that of the two Puts in sequence; the harness then removes the new key
+    match unhex n, unhex k1, unhex k2 with
+    | some n, some k1, some k2 =>
+      let r1 := fsStep st.cfg st.fs (.put n k1)
+      let r2 := fsStep st.cfg r1.1 (.put n k2)
+      let fs' := if r1.2 == .ok ∨ r2.2 == .ok then (fsStep st.cfg r2.1 (.delete n)).1 else r2.1
+      ({ st with fs := fs' }, "race " ++ ",".intercalate (sortStrings [showOut r1.2, showOut r2.2]))
+    | _, _, _ => (st, "bad-op")
   | ["plantsym", fname, target] => doPlant st (inDir st fname) (some (.symlink (outPath target)))
   | ["plantdir", fname] => doPlant st (inDir st fname) (some .dir)
   | ["plantfile", fname, d, ok] => doPlant st (inDir st fname) (do pure (.file (← unhex d) (ok == "1")))
